@@ -730,6 +730,8 @@ fn check_presentation_contexts(
                 .or_else(||
                 // accept implicit VR little endian
                 pcs.iter()
+                    // SOP class
+                    .filter(|pc| ignore_sop_class || pc.abstract_syntax == file.sop_class_uid)
                     .find(|pc| pc.transfer_syntax == uids::IMPLICIT_VR_LITTLE_ENDIAN))
                 .context(NoPresentationContextSnafu)?
         }
